@@ -28,7 +28,20 @@ partial def lexAux : List Char → Array Tok → Except String (Array Tok)
       lexAux ((c :: rest).dropWhile isIdChar) (acc.push (.id (String.ofList word)))
     else if c.isDigit || (c == '-' && (match rest with | d :: _ => d.isDigit | [] => false)) then
       let digits := rest.takeWhile fun x => x.isDigit || x == '.'
-      lexAux (rest.dropWhile fun x => x.isDigit || x == '.') (acc.push (.lit (String.ofList (c :: digits))))
+      let after := rest.dropWhile fun x => x.isDigit || x == '.'
+      -- an exponent: 1e+06, 2.5E-3
+      match after with
+      | e :: more =>
+        if e == 'e' || e == 'E' then
+          let (sign, more') := match more with
+            | '+' :: m => (['+'], m)
+            | '-' :: m => (['-'], m)
+            | m => ([], m)
+          let ex := more'.takeWhile Char.isDigit
+          if ex.isEmpty then lexAux after (acc.push (.lit (String.ofList (c :: digits))))
+          else lexAux (more'.dropWhile Char.isDigit) (acc.push (.lit (String.ofList (c :: digits ++ [e] ++ sign ++ ex))))
+        else lexAux after (acc.push (.lit (String.ofList (c :: digits))))
+      | [] => lexAux after (acc.push (.lit (String.ofList (c :: digits))))
     else if c == '\'' then
       -- a quoted string; '' is an escaped quote
       let rec str (cs : List Char) (buf : List Char) : Option (List Char × List Char) :=
